@@ -208,4 +208,51 @@ def multiForwarding : List (String × String × Bool × List (String × String) 
    ("getTracerDiffusivity", "getTracerDiffusivity", true, [("x", "pos"), ("T", "pos"), ("phase", "kw")], [("removeCache", "kw")], ["x", "T", "removeCache", "phase"]),
    ("impingementFactor", "impingementFactor", true, [("x", "pos"), ("T", "pos"), ("precPhase", "pos")], [("removeCache", "kw"), ("searchDir", "kw")], ["x", "T", "precPhase", "removeCache", "searchDir"])]
 
+/-- EVERY class with a save / load pair x EVERY keyword branch of its save method: (class, branch = on-disk format, lines (key in the file, attribute written, skipped when None) of that branch, lines (key, attribute stored into, missing key tolerated) of load); read off the real methods run on marker arrays in every array attribute -/
+def saveTables : List (String × String × List (String × String × Bool) × List (String × String × Bool)) :=
+  [("StrengthModel", "compressed",
+      [("ssStrength", "solidStrength", false), ("rss", "rss", false), ("ls", "ls", false)],
+      [("ssStrength", "solidStrength", false), ("rss", "rss", false), ("ls", "ls", false)]),
+   ("StrengthModel", "uncompressed",
+      [("ssStrength", "solidStrength", false), ("rss", "rss", false), ("ls", "ls", false)],
+      [("ssStrength", "solidStrength", false), ("rss", "rss", false), ("ls", "ls", false)]),
+   ("PopulationBalanceModel", "compressed",
+      [("time", "_recordedTime", false), ("bins", "_recordedBins", false), ("PSD", "_recordedPSD", false)],
+      [("time", "_recordedTime", false), ("bins", "_recordedBins", false), ("PSD", "_recordedPSD", false)]),
+   ("PopulationBalanceModel", "uncompressed",
+      [("time", "_recordedTime", false), ("bins", "_recordedBins", false), ("PSD", "_recordedPSD", false)],
+      [("time", "_recordedTime", false), ("bins", "_recordedBins", false), ("PSD", "_recordedPSD", false)]),
+   ("GrainGrowthModel", "compressed",
+      [],
+      []),
+   ("Coupler", "compressed",
+      [],
+      []),
+   ("SinglePhaseModel", "compressed",
+      [("finalTime", "t", false), ("finalX", "x", false), ("recordX", "_recordedX", true), ("recordTime", "_recordedTime", true)],
+      [("finalTime", "t", false), ("finalX", "x", false), ("recordX", "_recordedX", true), ("recordTime", "_recordedTime", true)]),
+   ("HomogenizationModel", "compressed",
+      [("finalTime", "t", false), ("finalX", "x", false), ("recordX", "_recordedX", true), ("recordTime", "_recordedTime", true)],
+      [("finalTime", "t", false), ("finalX", "x", false), ("recordX", "_recordedX", true), ("recordTime", "_recordedTime", true)]),
+   ("PrecipitateModel", "compressed",
+      [("time", "pData.time", false), ("temperature", "pData.temperature", false), ("composition", "pData.composition", false), ("xEqAlpha", "pData.xEqAlpha", false), ("xEqBeta", "pData.xEqBeta", false), ("drivingForce", "pData.drivingForce", false), ("impingement", "pData.impingement", false), ("Gcrit", "pData.Gcrit", false), ("Rcrit", "pData.Rcrit", false), ("nucRate", "pData.nucRate", false), ("precipitateDensity", "pData.precipitateDensity", false), ("Rnuc", "pData.Rnuc", false), ("Ravg", "pData.Ravg", false), ("ARavg", "pData.ARavg", false), ("volFrac", "pData.volFrac", false), ("fconc", "pData.fconc", false), ("PBM_data_PHA", "PBM.(min,max,bins)@PHA", false), ("PBM_PSD_PHA", "PBM.PSD@PHA", false), ("PBM_bounds_PHA", "PBM.PSDbounds@PHA", false), ("PBM_size_PHA", "PBM.PSDsize@PHA", false), ("eqAspectRatio_PHA", "eqAspectRatio@PHA", false), ("PBM_data_PHB", "PBM.(min,max,bins)@PHB", false), ("PBM_PSD_PHB", "PBM.PSD@PHB", false), ("PBM_bounds_PHB", "PBM.PSDbounds@PHB", false), ("PBM_size_PHB", "PBM.PSDsize@PHB", false), ("eqAspectRatio_PHB", "eqAspectRatio@PHB", false)],
+      [("time", "pData.time", false), ("temperature", "pData.temperature", false), ("composition", "pData.composition", false), ("xEqAlpha", "pData.xEqAlpha", false), ("xEqBeta", "pData.xEqBeta", false), ("drivingForce", "pData.drivingForce", false), ("impingement", "pData.impingement", false), ("Gcrit", "pData.Gcrit", false), ("Rcrit", "pData.Rcrit", false), ("nucRate", "pData.nucRate", false), ("precipitateDensity", "pData.precipitateDensity", false), ("Rnuc", "pData.Rnuc", false), ("Ravg", "pData.Ravg", false), ("ARavg", "pData.ARavg", false), ("volFrac", "pData.volFrac", false), ("fconc", "pData.fconc", false), ("PBM_data_PHA", "PBM.(min,max,bins)@PHA", false), ("PBM_PSD_PHA", "PBM.PSD@PHA", false), ("PBM_bounds_PHA", "PBM.PSDbounds@PHA", false), ("PBM_size_PHA", "PBM.PSDsize@PHA", false), ("eqAspectRatio_PHA", "eqAspectRatio@PHA", false), ("PBM_data_PHB", "PBM.(min,max,bins)@PHB", false), ("PBM_PSD_PHB", "PBM.PSD@PHB", false), ("PBM_bounds_PHB", "PBM.PSDbounds@PHB", false), ("PBM_size_PHB", "PBM.PSDsize@PHB", false), ("eqAspectRatio_PHB", "eqAspectRatio@PHB", false)])]
+
+/-- classes whose save method has a `compressed` keyword (two branches) -/
+def saveKeywordClasses : List String :=
+  ["StrengthModel", "PopulationBalanceModel"]
+
+/-- every class of the package that defines or inherits a save<X> / load<X> method pair: (class, save method) -/
+def saveLoadPairs : List (String × String) :=
+  [("Coupler", "save"),
+   ("DiffusionModel", "save"),
+   ("GenericModel", "save"),
+   ("GrainGrowthModel", "save"),
+   ("HomogenizationModel", "save"),
+   ("PopulationBalanceModel", "saveRecordedPSD"),
+   ("PrecipitateBase", "save"),
+   ("PrecipitateModel", "save"),
+   ("SinglePhaseModel", "save"),
+   ("StrengthModel", "save")]
+
 end KawinV.Gen.C20
